@@ -757,4 +757,99 @@ theorem keyInv_execAll (k : ShmKey) (s : SegId) (L : Nat) (as : List Action) :
     | kill p => exact keyInv_kill k s L g p hK
     | step t i => exact keyInv_step k s L g t i hM hK hq.1
 
+/-! ## consequences for live handles, in any state satisfying the invariants -/
+
+/-- under `MapInv` a live handle's address is mapped, by exactly one mapping, of exactly the handle's size -/
+theorem findMap_of_handle (g : G) (hM : MapInv g) (h : Hid) (p : Pid) (y : PShm) (hy : g.hs h = some (p, .shm y)) :
+    ∃ m, findMap (g.os.procs p) y.addr = some m ∧ m ∈ (g.os.procs p).maps ∧ m.addr = y.addr ∧ m.len = y.size ∧ m.off = 0 ∧
+      y.size ≠ 0 ∧ ∀ m' ∈ (g.os.procs p).maps, m'.addr = y.addr → m' = m := by
+  obtain ⟨hl, m, hm, hma, hml, hmo⟩ := hM.claims.valid (.inl h) p y.addr y.size (by simp [claimOf, hClaim, hy])
+  have uniq : ∀ m' ∈ (g.os.procs p).maps, m'.addr = y.addr → m' = m :=
+    fun m' hm' ha' => nodup_map_inj (·.addr) _ (hM.claims.nodup p) m' m hm' hm (by rw [ha', hma])
+  cases hf : findMap (g.os.procs p) y.addr with
+  | none =>
+    simp only [findMap, List.find?_eq_none] at hf
+    exact absurd hma (by simpa using hf m hm)
+  | some m' =>
+    have h1 := List.find?_some hf
+    have h2 := List.mem_of_find?_eq_some hf
+    simp only [decide_eq_true_eq] at h1
+    have := uniq m' h2 h1
+    subst this
+    exact ⟨m', rfl, hm, hma, hml, hmo, hl, uniq⟩
+
+/-- **one memory per name, any interleaving**: in every state in which the segment of `k` exists
+    (`MapInv ∧ KeyInv`), a byte stored through any live writable handle of `k` is the byte loaded through
+    any live handle of `k` — same or different thread or process — at every offset below both reported sizes -/
+theorem handles_share_bytes (k : ShmKey) (s : SegId) (L : Nat) (g : G) (hM : MapInv g) (hK : KeyInv k s L g)
+    (ta tb : Tid) (ha hb : Hid) (ya yb : PShm) (off : Nat) (b : UInt8)
+    (ia : Idle g ta) (ib : Idle g tb)
+    (hha : g.hs ha = some (g.pidOf ta, .shm ya)) (hhb : g.hs hb = some (g.pidOf tb, .shm yb))
+    (ka : ya.key = k) (kb : yb.key = k) (hrw : ya.ro = false) (la : off < ya.size) (lb : off < yb.size) :
+    ((g.call ta (.wr ha off b)).call tb (.rd hb off)).ret tb = some (.byte b) := by
+  obtain ⟨ma, fa, hma, aa, lena, offa, _, _⟩ := findMap_of_handle g hM ha _ ya hha
+  obtain ⟨mb, fb, hmb, ab, lenb, offb, _, _⟩ := findMap_of_handle g hM hb _ yb hhb
+  obtain ⟨sza, ga⟩ := hK.handles ha _ ya hha ka
+  obtain ⟨szb, gb⟩ := hK.handles hb _ yb hhb kb
+  obtain ⟨sa, sha, wra⟩ := ga ma hma aa
+  obtain ⟨sb, _, _⟩ := gb mb hmb ab
+  exact write_then_read g ta tb ha hb ya yb ma mb off b ia ib hha hhb fa fb (by rw [sa, sb]) offa offb
+    (by rw [lena]; exact la) (by rw [lenb]; exact lb) (wra hrw) sha (by rw [sa, hK.len]; omega)
+
+/-- **no fault below the reported size, any interleaving** -/
+theorem handle_no_fault (k : ShmKey) (s : SegId) (L : Nat) (g : G) (hM : MapInv g) (hK : KeyInv k s L g)
+    (h : Hid) (p : Pid) (y : PShm) (hy : g.hs h = some (p, .shm y)) (hk : y.key = k) (off : Nat) (ho : off < y.size) :
+    ∃ b, g.os.load p y.addr off = .val b := by
+  obtain ⟨m, fm, hm, am, lenm, offm, _, _⟩ := findMap_of_handle g hM h p y hy
+  obtain ⟨sz, gm⟩ := hK.handles h p y hy hk
+  obtain ⟨sm, _, _⟩ := gm m hm am
+  have hlen : m.off + off < (g.os.segs m.seg).bytes.length := by rw [offm, sm, hK.len]; omega
+  exact ⟨_, load_eq g.os p y.addr off m fm (by rw [lenm]; exact ho) hlen⟩
+
+/-- **exact unmap, any interleaving**: the `munmap` step of any `p_shm_free` in flight removes exactly
+    the one mapping the handle's `p_shm_new` created (it exists, is unique, has the handle's size) and
+    nothing else, in no other process either -/
+theorem free_unmaps_exactly (g : G) (t : Tid) (i : Bool) (st : ShmFreeSt) (hM : MapInv g)
+    (hc : g.calls t = some (.shmFree st)) (hpc : st.pc = .munmap) :
+    ∃ m, m ∈ (g.os.procs (g.pidOf t)).maps ∧ m.addr = st.h.addr ∧ m.len = st.h.size ∧
+      (∀ m' ∈ (g.os.procs (g.pidOf t)).maps, m'.addr = st.h.addr → m' = m) ∧
+      ((g.step t i).os.procs (g.pidOf t)).maps = (g.os.procs (g.pidOf t)).maps.filter (fun m' => decide (m'.addr ≠ st.h.addr)) ∧
+      ∀ q, q ≠ g.pidOf t → ((g.step t i).os.procs q).maps = (g.os.procs q).maps := by
+  obtain ⟨hnext, hcl⟩ := (shmFree_step (g.pidOf t) st).1 hpc
+  have hclaim : claimOf g (.inr t) = some (g.pidOf t, st.h.addr, st.h.size) := by
+    simp only [claimOf, tClaim, hc]; exact hcl
+  obtain ⟨hl0, m, hm, hma, hml, _⟩ := hM.claims.valid _ _ _ _ hclaim
+  have uniq : ∀ m' ∈ (g.os.procs (g.pidOf t)).maps, m'.addr = st.h.addr → m' = m :=
+    fun m' hm' ha' => nodup_map_inj (·.addr) _ (hM.claims.nodup _) m' m hm' hm (by rw [ha', hma])
+  have hmun := sysStep_munmap (g.pidOf t) i st.h.addr st.h.size g.os hl0
+  have hex := munmapF_exact (g.os.procs (g.pidOf t)) st.h.addr st.h.size (fun m' hm' ha' => by rw [uniq m' hm' ha']; exact hml)
+  refine ⟨m, hm, hma, hml, uniq, ?_, ?_⟩
+  · rw [step_os g t i _ hc]; simp only [Call.next, hnext]; rw [hmun.1]; exact hex.1
+  · intro q hq; rw [step_os g t i _ hc]; simp only [Call.next, hnext]; rw [hmun.2.1 q hq]
+
+/-- a sequential call is a schedule: invariants over `execAll` hold after `G.call` -/
+theorem runCall_is_execAll (fuel : Nat) : ∀ (g : G) (t : Tid) (sc : List Nat), ∃ as, runCall g t sc fuel = execAll g as := by
+  induction fuel with
+  | zero => intro g t sc; exact ⟨[], rfl⟩
+  | succ f ih =>
+    intro g t sc
+    simp only [runCall]
+    split
+    · exact ⟨[], rfl⟩
+    · rename_i c hc
+      split
+      · exact ⟨List.replicate (if c.next.interruptible = true then sc.headD 0 else 0) (Action.step t true) ++ [Action.step t false],
+          by simp [execAll, List.foldl_append, exec]⟩
+      · obtain ⟨as, has⟩ := ih ((List.foldl exec g (List.replicate (if c.next.interruptible = true then sc.headD 0 else 0) (Action.step t true))).step t false) t sc.tail
+        exact ⟨List.replicate (if c.next.interruptible = true then sc.headD 0 else 0) (Action.step t true) ++ [Action.step t false] ++ as,
+          by rw [has]; simp [execAll, List.foldl_append, exec]⟩
+
+theorem call_is_execAll (g : G) (t : Tid) (op : Op) (sc : List Nat) : ∃ as, g.call t op sc = execAll g as := by
+  obtain ⟨as, has⟩ := runCall_is_execAll seqFuel (g.start t op) t sc
+  exact ⟨Action.start t op :: as, by simp only [G.call, has, execAll, List.foldl_cons, exec]⟩
+
+theorem mapInv_call (g : G) (t : Tid) (op : Op) (sc : List Nat) (h : MapInv g) : MapInv (g.call t op sc) := by
+  obtain ⟨as, has⟩ := call_is_execAll g t op sc
+  rw [has]; exact mapInv_execAll as g h
+
 end PV.IPC
